@@ -8,7 +8,7 @@ from vf.spec import Ctx, Err, Ok, Program, Unspecified, canon, jtype, match_img
 PROP = "C01"
 SHARDS = {"quick": 8, "thorough": 16}
 TIME_CAP = {"quick": 70, "thorough": 900}
-REQUIRED = ["agree_accept", "agree_reject", "programs", "node:ObjectMethod", "node:SimpleObjectMethod", "node:UnionByTypeMethod",
+REQUIRED = ["agree_accept", "agree_reject", "programs", "per_call_schema_programs", "per_call_validators_programs", "generic_programs", "node:ObjectMethod", "node:SimpleObjectMethod", "node:UnionByTypeMethod",
             "node:UnionMethod", "node:OptionalMethod", "node:ListMethod", "node:ListCheckOnlyMethod", "node:TupleMethod", "node:SetMethod",
             "node:LiteralMethod", "node:MappingMethod"]
 RULE = ("programs: every type of constructor depth<=2 over 21 atoms x 13 constructors (sliced per shard; thorough: all) + seeded random "
@@ -62,6 +62,36 @@ def first_diff(a, b, path=()):
     return f"{a[0]}: payload differs"
 
 
+def veto_always(value):
+    from apischema import ValidationError
+    raise ValidationError("§veto")
+
+
+def veto_never(value):
+    return None
+
+
+def per_call_args(rng, t):
+    from vf.spec import Ann, AnyT, Coll, MapT, ObjectT, Prim, Union_, strip
+    cons, veto = None, None
+    if rng.random() < 0.12 and not any(isinstance(n, Ann) for n in [t]):
+        b = strip(t)
+        if isinstance(b, Prim) and b.p in ("int", "float"):
+            cons = {"min": 0}
+        elif isinstance(b, Prim) and b.p == "str":
+            cons = {"min_len": 1}
+        elif isinstance(b, Coll) and b.c not in ("set", "absset", "mutset", "frozenset"):
+            cons = {"max_items": 2}
+        elif isinstance(b, (ObjectT, MapT)):
+            cons = {"min_props": 1}
+        if isinstance(t, Ann) or any(isinstance(n, Ann) for n in (t, getattr(t, "t", None)) if n is not None):
+            cons = None
+    if rng.random() < 0.1 and not isinstance(strip(t), (ObjectT, Union_)) and not any(isinstance(n, ObjectT) for n in (strip(t),)):
+        # (a validator reading no field of an object has no provided dependency and legitimately never runs: C10)
+        veto = rng.random() < 0.5
+    return cons, veto
+
+
 def check_program(env, prog, nopts, ndata, label):
     from apischema import deserialization_method, deserialize
 
@@ -72,6 +102,18 @@ def check_program(env, prog, nopts, ndata, label):
         cx.objects = prog.objects
         harness.reset_all()
         kw = harness.options(cx)
+        t = prog.t
+        # per-call schema= / validators= arguments (the model sees them as constraints on the top-level type / a final veto)
+        percall, veto = per_call_args(rng, prog.t)
+        if percall:
+            from apischema import schema as mk_schema
+            from vf.spec import Ann
+            kw["schema"] = mk_schema(**percall)
+            t = Ann(prog.t, percall)
+            env.count("per_call_schema_programs")
+        if veto is not None:
+            kw["validators"] = [veto_always if veto else veto_never]
+            env.count("per_call_validators_programs")
         o = harness.call(deserialization_method, prog.T, **kw)
         if o.kind != "ok":
             env.violation({"kind": "compile", "exc": o.exc or "ValidationError"}, {"program": prog.source, "options": repr(kw), "outcome": o.brief()})
@@ -97,6 +139,8 @@ def check_program(env, prog, nopts, ndata, label):
                 env.count("unspecified:model recursion")
                 continue
             real = harness.call(deserialize, prog.T, d, **kw) if use_function else harness.call(method, d)
+            if veto and isinstance(r, Ok):
+                r = Err([((), "veto", "validator")])  # an always-failing per-call validator rejects every conforming datum
             optsig = (cx.additional_properties, cx.fall_back_on_default, cx.aliaser)
             env.case(sig, optsig, repr(d), nontrivial=not (len(sig) < 6 and isinstance(r, Ok)))
             wit = {"program": prog.source, "label": label, "options": {"additional_properties": cx.additional_properties, "fall_back_on_default": cx.fall_back_on_default, "aliaser": cx.aliaser}, "datum": d}
@@ -122,6 +166,8 @@ def check_program(env, prog, nopts, ndata, label):
                 else:
                     env.count("agree_reject")
     env.count("programs")
+    if "Generic[" in prog.source:
+        env.count("generic_programs")
 
 
 def run(env):
